@@ -69,6 +69,14 @@ Definition pack_hdr (thr : Z) (id : Z) (n zn : N) : list N * bool :=
     if (Z.of_N n <? thr)%Z then (hdr_below id n, false) else (hdr_zlib id n zn, true)
   else (hdr_plain id n, false).
 
+(* does the receiver accept the frame Pack emits for (id, n payload bytes) under the same setting?
+   (arithmetic only; proved equal to running unpack on pack, Proofs.C07.own_frame_verdict) *)
+Definition own_accepts (thr : Z) (id : Z) (n : N) : bool :=
+  if (0 <=? thr)%Z then
+    if (Z.of_N n <? thr)%Z then true
+    else (Z.of_N (len32 id) + Z.of_N n <=? packet_MaxDataLength)%Z
+  else (Z.of_N n <=? packet_MaxDataLength)%Z.
+
 Section Zlib.
 (* compress/zlib as an oracle.
    deflate x        : what a pooled zlib.Writer emits for the input x between Reset and Close
